@@ -365,6 +365,47 @@ def check_plumbing(ck, m, label):
     return n
 
 
+def corpus_transport_expect(exp):
+    """{trait path: {method: uses integer coding}} from the corpus description (generated single-method traits and the hand-written
+    ones that say so)."""
+    out = {}
+    for it in exp["items"]:
+        if it["kind"] == "single":
+            out["cgv_corpus::%s::%s" % (it["mod"], it["trait"])] = {mm["name"]: bool(mm["int_result"]) for mm in it["methods"]}
+        elif it["kind"] == "fixed" and it.get("int"):
+            out["cgv_corpus::%s::%s" % (it["mod"], it["trait"])] = dict(it["int"])
+    return out
+
+
+def check_transport(ck, m, label, expected):
+    """A method crosses the boundary as (i32 code, ok_out slot) exactly when it is marked #[int_result] (by its own attribute, else by
+    the trait's, unless #[no_int_result]); every other Result keeps its lossless CResult form.  Decided per generated wrapper and
+    opaque implementation from the helper they call."""
+    n = 0
+    for g in m.gen_traits:
+        want = expected.get(g.trait_path or "")
+        if not want:
+            continue
+        for name, marked in sorted(want.items()):
+            w, of = g.wrappers.get(name), g.opaque.get(name)
+            if w is None:
+                continue   # no slot: reported by the slot-list rule
+            n += 1
+            key = "%s/%s.%s" % (label, g.vtbl_path, name)
+            enc = any(cp(t) in (RES + "into_int_out_result", RES + "into_int_result") for _, t in mir.Body(w).calls())
+            ck.ob("T-int-transport-iff-marked", key + "/wrapper", enc == marked,
+                  "C wrapper %s %s although the method is %s" % (w["path"], "returns an integer code" if enc else "does not return an integer code",
+                                                                "marked #[int_result]" if marked else "not marked #[int_result] (here)"),
+                  sample={"method": (g.trait_path or "") + "::" + name, "marked": marked, "encodes": enc})
+            if of is not None:
+                dec = any(cp(t) in (RES + "from_int_result", RES + "from_int_result_empty") for _, t in mir.Body(of).calls())
+                ck.ob("T-int-transport-iff-marked", key + "/opaque", dec == marked,
+                      "opaque impl %s %s although the method is %s" % (of["path"], "decodes an integer code" if dec else "does not decode an integer code",
+                                                                     "marked #[int_result]" if marked else "not marked #[int_result] (here)"))
+    return n
+
+
+
 def check_helpers(ck):
     """The four integer-result helper functions (also on the path of every #[int_result] call, hence shared with C01)."""
     f = facts.cfg_cglue()
@@ -421,8 +462,11 @@ def run(tier):
     # generated plumbing
     cf = corpus.corpus_facts(tier)
     ck.unit("corpus-%s" % tier)
-    n1 = check_plumbing(ck, model.Model(cf), "corpus")
+    cm = model.Model(cf)
+    n1 = check_plumbing(ck, cm, "corpus")
     ck.floor("int-result methods in corpus", n1, 25 if tier == "quick" else 300)
+    nt = check_transport(ck, cm, "corpus", corpus_transport_expect(corpus.expect(tier)))
+    ck.floor("corpus methods with a stated transport", nt, 300)
     ct = facts.cfg_cglue(tests=True)
     ck.unit("cglue --tests")
     n2 = check_plumbing(ck, model.Model(ct, "cglue-test"), "cglue-tests")
